@@ -21,6 +21,24 @@ import (
 // Which parameters a function writes through is computed as a fixpoint over the package (stores through the
 // parameter or addresses derived from it, and passing it on to a writing parameter).
 func localsDefinedBeforeRead(r *core.Run, p *core.Program, rule, pkgSuffix string, exceptions map[string]string) {
+	usedefAnalysis(r, p, rule, pkgSuffix, exceptions, nil)
+}
+
+type globalWrite struct {
+	fn  *ssa.Function
+	ins ssa.Instruction
+	g   *ssa.Global
+}
+
+// packageGlobalWrites lists the instructions of the package that write a package-level variable (directly
+// or by handing it to something that writes through that argument).
+func packageGlobalWrites(p *core.Program, pkgSuffix string) []globalWrite {
+	var out []globalWrite
+	usedefAnalysis(nil, p, "", pkgSuffix, nil, &out)
+	return out
+}
+
+func usedefAnalysis(r *core.Run, p *core.Program, rule, pkgSuffix string, exceptions map[string]string, globalsOut *[]globalWrite) {
 	var fns []*ssa.Function
 	for _, f := range p.ModuleFuncs() {
 		if f.Pkg != nil && strings.HasSuffix(f.Pkg.Pkg.Path(), pkgSuffix) && f.Blocks != nil {
@@ -64,7 +82,19 @@ func localsDefinedBeforeRead(r *core.Run, p *core.Program, rule, pkgSuffix strin
 	callWrites := func(c ssa.CallInstruction, k int) bool {
 		cal := an.StaticCallee(c)
 		if cal == nil || cal.Blocks == nil || !core.InModule(cal) {
-			return true // unknown or external callee: taken as a writer
+			if globalsOut == nil {
+				return true // unknown or external callee: taken as a writer (a local counts as defined)
+			}
+			// for writes to globals: of the standard library only the receiver of a math/big mutator
+			// (and destination arguments of copy-like functions) is written
+			name := an.CallName(c)
+			if strings.HasPrefix(name, "(*math/big.Int).") {
+				m := strings.TrimPrefix(name, "(*math/big.Int).")
+				readers := map[string]bool{"Cmp": true, "CmpAbs": true, "Sign": true, "Bit": true, "BitLen": true, "Bytes": true, "Bits": true, "String": true, "Text": true,
+					"IsInt64": true, "IsUint64": true, "Int64": true, "Uint64": true, "ProbablyPrime": true, "FillBytes": true, "TrailingZeroBits": true, "Format": true, "Append": true}
+				return k == 0 && !readers[m]
+			}
+			return false
 		}
 		return writes[pk{cal, k}]
 	}
@@ -95,6 +125,34 @@ func localsDefinedBeforeRead(r *core.Run, p *core.Program, rule, pkgSuffix strin
 				}
 			})
 		}
+	}
+	if globalsOut != nil {
+		// writes to package-level variables: stores rooted at a global, calls that write through an argument
+		// rooted at a global
+		for _, f := range fns {
+			an.Instrs(f, func(i ssa.Instruction) {
+				switch x := i.(type) {
+				case *ssa.Store:
+					if g, ok := root(x.Addr, 0).(*ssa.Global); ok {
+						*globalsOut = append(*globalsOut, globalWrite{f, i, g})
+					}
+				case ssa.CallInstruction:
+					for ai, a := range x.Common().Args {
+						g, ok := root(a, 0).(*ssa.Global)
+						if !ok {
+							continue
+						}
+						if _, isPtr := a.Type().Underlying().(*types.Pointer); !isPtr {
+							continue
+						}
+						if callWrites(x, ai) {
+							*globalsOut = append(*globalsOut, globalWrite{f, i, g})
+						}
+					}
+				}
+			})
+		}
+		return
 	}
 	locals, reads := 0, 0
 	for _, f := range fns {
